@@ -244,10 +244,61 @@ class Random(Part):
         return outcome_for(case)
 
 
+class Fuzz(Part):
+    """thorough tier: atheris (libFuzzer) with coverage feedback from digraph.py, same oracle inside the target; one
+    campaign per worker, each from an empty corpus with its own libFuzzer seed.  If atheris cannot be imported the part
+    is skipped (labelled), never a failure."""
+    name = 'fuzz'
+    examples = {}
+    RUNS = 60000
+
+    def enumerate(self, tier, w, nworkers):
+        if tier == 'thorough':
+            import os
+            yield {'fuzz': True, 'runs': self.RUNS, 'seed': 1 + w + 1000 * int(os.environ.get('VERIF_SEED', '0') or 0)}
+
+    def execute(self, case):
+        import json
+        import os
+        import shutil
+        import subprocess
+        import sys
+        import tempfile
+        from .. import boot
+        work = tempfile.mkdtemp(prefix='ztv-c20-fuzz-')
+        try:
+            script = os.path.join(boot.VERIF_DIR, 'ztv', 'props', 'c20_fuzz.py')
+            p = subprocess.run([sys.executable, '-W', 'ignore', script, str(case['runs']), str(case['seed']), work],
+                               stdout=subprocess.PIPE, stderr=subprocess.STDOUT, timeout=3000)
+            out = p.stdout.decode('utf-8', 'replace')
+            if 'ZTV-NO-ATHERIS' in out:
+                return Outcome([], ['atheris-not-installed'], False)
+            viol = []
+            for line in out.splitlines():
+                if line.startswith('ZTV-VIOLATION '):
+                    d = json.loads(line[len('ZTV-VIOLATION '):])
+                    viol += [(s, '%s [atheris input decoded to %s]' % (m, json.dumps(d['case']))) for s, m in d['viol']]
+            stats = {}
+            try:
+                with open(os.path.join(work, 'stats.json')) as f:
+                    stats = json.load(f)
+            except (OSError, ValueError):
+                pass
+            if p.returncode != 0 and not viol:
+                from ..engine import HarnessError
+                raise HarnessError('atheris campaign ended with status %s: %s' % (p.returncode, out[-400:]))
+            labels = ['atheris-campaign', 'execs~%dk' % (stats.get('execs', 0) // 1000),
+                      'distinct-nontrivial~%dk' % (stats.get('distinct', 0) // 1000)]
+            return Outcome(viol, labels, stats.get('distinct', 0) > 0)
+        finally:
+            shutil.rmtree(work, ignore_errors=True)
+
+
 class C20(Prop):
     id = 'C20'
     registered = True
-    technique = 'exhaustive small-scope enumeration + Hypothesis random graphs vs. reachability-closure oracle'
+    technique = ('exhaustive small-scope enumeration + Hypothesis random graphs + (thorough) coverage-guided atheris campaigns '
+                 'vs. reachability-closure oracle')
     level_text = 'Every digraph on <=4 nodes (with self-loops) is enumerated in several insertion orders / node kinds / call patterns and compared with an independent reference partition; Hypothesis graphs of 5..14 nodes extend this beyond the bound. Exhaustive inside the bound, sampled beyond.'
     level_note = 'Trusts the Warshall-closure reference implementation in ztv/props/c20.py and CPython set/dict semantics.'
     rule = ('exhaustive part: all digraphs with self-loops on <=4 nodes, each built in several node '
@@ -259,7 +310,7 @@ class C20(Prop):
     assumptions = ('reference partition computed by Warshall reachability closure (independent of Tarjan)',
                    'value-equal nodes (int/str/tuple) are used with make_hashable=None or identity function, as '
                    'the class docstring prescribes for such node types')
-    parts = (Exhaustive(), Random())
+    parts = (Exhaustive(), Random(), Fuzz())
 
     def hashseed(self, w):
         return str(w % 4)  # str nodes under 4 different hash seeds
